@@ -109,61 +109,87 @@ func (w *c16World) exec(ctx sdk.Context, op c16Op, signer int) error {
 	g := sdk.WrapSDKContext(ctx)
 	s := w.addrs[signer]
 	var err error
+	// The account a transaction must be signed by is msg.GetSigners(); the handlers authenticate a
+	// field of the message.  The probes put the acting account into that field, so GetSigners()
+	// must return exactly the acting account — otherwise somebody else's signature authorises
+	// the action (and the designated principal's own signature is refused by the ante handler).
+	bind := func(m sdk.Msg) {
+		sg := m.GetSigners()
+		if len(sg) != 1 || !sg[0].Equals(s) {
+			w.signerMismatch = fmt.Sprintf("%T: the handler authenticates %s, GetSigners() = %v", m, s, sg)
+		}
+	}
 	switch op.Kind {
 	case "postprice":
 		m := pricefeedtypes.NewMsgPostPrice(s.String(), idxName(c16Markets, op.A, "nomarket:usd"),
 			sdk.NewDecFromBigIntWithPrec(bigOf(op.X), 18), time.Unix(bigOf(op.Y).Int64(), 0).UTC())
+		bind(m)
 		_, err = w.pfMsg.PostPrice(g, m)
 	case "issue":
 		m := issuancetypes.NewMsgIssueTokens(s.String(), sdk.NewCoin(idxName(c16IssDenoms, op.A, "notok"), intOf(op.X)), w.addrs[op.B].String())
+		bind(m)
 		_, err = w.issMsg.IssueTokens(g, m)
 	case "redeem":
 		m := issuancetypes.NewMsgRedeemTokens(s.String(), sdk.NewCoin(idxName(c16IssDenoms, op.A, "notok"), intOf(op.X)))
+		bind(m)
 		_, err = w.issMsg.RedeemTokens(g, m)
 	case "block":
 		m := issuancetypes.NewMsgBlockAddress(s.String(), idxName(c16IssDenoms, op.A, "notok"), w.addrs[op.B].String())
+		bind(m)
 		_, err = w.issMsg.BlockAddress(g, m)
 	case "unblock":
 		m := issuancetypes.NewMsgUnblockAddress(s.String(), idxName(c16IssDenoms, op.A, "notok"), w.addrs[op.B].String())
+		bind(m)
 		_, err = w.issMsg.UnblockAddress(g, m)
 	case "pause":
 		m := issuancetypes.NewMsgSetPauseStatus(s.String(), idxName(c16IssDenoms, op.A, "notok"), op.Flag)
+		bind(m)
 		_, err = w.issMsg.SetPauseStatus(g, m)
 	case "swap":
 		m := bep3types.NewMsgCreateAtomicSwap(s.String(), w.addrs[op.B].String(), "0xrecipientOtherChain", "0xsenderOtherChain",
 			swapHash(op.Y), ctx.BlockTime().Unix(), swapCoins(op), 250)
+		bind(&m)
 		_, err = w.b3Msg.CreateAtomicSwap(g, &m)
 	case "submit":
 		m, e := committeetypes.NewMsgSubmitProposal(govv1beta1.NewTextProposal("title "+op.Y, "description"), s, uint64(op.A))
 		if e != nil {
 			return e
 		}
+		bind(m)
 		_, err = w.comMsg.SubmitProposal(g, m)
 	case "vote":
 		m := committeetypes.NewMsgVote(s, uint64(op.A), committeetypes.VoteType(op.B))
+		bind(m)
 		_, err = w.comMsg.Vote(g, m)
 	case "params":
 		m := communitytypes.NewMsgUpdateParams(s, communitytypes.NewParams(time.Unix(bigOf(op.X).Int64(), 0).UTC(),
 			sdk.NewDecFromBigIntWithPrec(bigOf(op.Y), 18), sdk.NewDecFromBigIntWithPrec(bigOf(op.Z), 18)))
+		bind(&m)
 		_, err = w.cmtyMsg.UpdateParams(g, &m)
 	case "draw":
 		m := cdptypes.NewMsgDrawDebt(s, idxName(c16CTypes, op.A, "none-a"), sdk.NewCoin("usdx", intOf(op.X)))
+		bind(&m)
 		_, err = w.cdpMsg.DrawDebt(g, &m)
 	case "repay":
 		m := cdptypes.NewMsgRepayDebt(s, idxName(c16CTypes, op.A, "none-a"), sdk.NewCoin("usdx", intOf(op.X)))
+		bind(&m)
 		_, err = w.cdpMsg.RepayDebt(g, &m)
 	case "cdpwd":
 		m := cdptypes.NewMsgWithdraw(w.addrs[op.B], s, sdk.NewCoin(idxName(c16CDenom, op.A, "none"), intOf(op.X)), idxName(c16CTypes, op.A, "none-a"))
+		bind(&m)
 		_, err = w.cdpMsg.Withdraw(g, &m)
 	case "hardwd":
 		m := hardtypes.NewMsgWithdraw(s, opCoins(op.Coins))
+		bind(&m)
 		_, err = w.hardMsg.Withdraw(g, &m)
 	case "savwd":
 		m := savingstypes.NewMsgWithdraw(s, opCoins(op.Coins))
+		bind(&m)
 		_, err = w.savMsg.Withdraw(g, &m)
 	case "swapwd":
 		m := swaptypes.NewMsgWithdraw(s.String(), intOf(op.X), sdk.NewCoin(c16PoolA[op.A], intOf(op.Y)), sdk.NewCoin("usdx", intOf(op.Z)),
 			ctx.BlockTime().Unix()+1000)
+		bind(m)
 		_, err = w.swapMsg.Withdraw(g, m)
 	case "earnwd":
 		strat := earntypes.STRATEGY_TYPE_HARD
@@ -171,6 +197,7 @@ func (w *c16World) exec(ctx sdk.Context, op c16Op, signer int) error {
 			strat = earntypes.STRATEGY_TYPE_SAVINGS
 		}
 		m := earntypes.NewMsgWithdraw(s.String(), sdk.NewCoin(c16Denoms[op.A], intOf(op.X)), strat)
+		bind(m)
 		_, err = w.earnMsg.Withdraw(g, m)
 	default:
 		panic("unknown op kind " + op.Kind)
